@@ -729,4 +729,92 @@ func TestC04RenameCycle(t *testing.T) {
 		}
 	}
 	St.ClassN("pairs_of_directories_moved_into_each_other", run)
+	// The name a rename moves is bound to another directory while the rename is under way: client 0 moves /D1 into
+	// /D0/x and is held at each of its first twenty-four lock/commit/abort points; meanwhile client 1 renames /D1
+	// to /z and /D0 to /D1 (inside the root).  If client 0 then moves what is now called /D1 - the directory D0 -
+	// into D0/x, D0 ends up below itself.  Whatever happens, the directories must still form a tree.
+	for hook := -1; hook < 24; hook++ {
+		idx++
+		if idx%nshards != shard {
+			continue
+		}
+		d := NewDisk(9000)
+		d.SetRecord(false)
+		w, err := setupWorld(true, hook%2 == 0, d)
+		if err != nil {
+			t.Fatalf("setup: %v", err)
+		}
+		api := w.S.API()
+		w.exec(api, cOp{Kind: "mkdir", Dir: 1, Name: "x"})
+		l0 := api.NFSPROC3_LOOKUP(nt.LOOKUP3args{What: nt.Diropargs3{Dir: w.Dirs[1], Name: "x"}})
+		if l0.Status != nt.NFS3_OK {
+			t.Fatalf("setup: lookup of the inner directory failed")
+		}
+		inner := l0.Resok.Object
+		root := w.Dirs[0]
+		ren := func(fn string, td nt.Nfs_fh3, tn string) nt.Nfsstat3 {
+			return api.NFSPROC3_RENAME(nt.RENAME3args{From: nt.Diropargs3{Dir: root, Name: nt.Filename3(fn)}, To: nt.Diropargs3{Dir: td, Name: nt.Filename3(tn)}}).Status
+		}
+		var st0, st1, st2 nt.Nfsstat3
+		mon := w.S.Mon()
+		var hooks int32
+		othersDone, reached := make(chan struct{}), make(chan struct{})
+		var once, reachedOnce sync.Once
+		var client0 uint64
+		if hook >= 0 {
+			mon.SetYield(func(point string) {
+				if goid() != atomic.LoadUint64(&client0) {
+					return
+				}
+				if int(atomic.AddInt32(&hooks, 1))-1 != hook {
+					return
+				}
+				once.Do(func() {
+					reachedOnce.Do(func() { close(reached) })
+					select {
+					case <-othersDone:
+					case <-time.After(30 * time.Millisecond):
+					}
+				})
+			})
+		} else {
+			close(reached)
+		}
+		o := Guard(20*time.Second, func() {
+			var wg sync.WaitGroup
+			wg.Add(2)
+			go func() {
+				defer wg.Done()
+				atomic.StoreUint64(&client0, goid())
+				st0 = ren("D1", inner, "y")
+				if hook >= 0 {
+					reachedOnce.Do(func() { close(reached) })
+				}
+			}()
+			go func() {
+				defer wg.Done()
+				defer close(othersDone)
+				<-reached
+				st1 = ren("D1", root, "z")
+				st2 = ren("D0", root, "D1")
+			}()
+			wg.Wait()
+		})
+		mon.SetYield(nil)
+		detail := map[string]any{"client_0_held_at_hook": hook, "RENAME /D1 -> /D0/x/y": st0, "RENAME /D1 -> /z": st1, "RENAME /D0 -> /D1": st2}
+		if o.Slow || o.Bad() {
+			St.Class("run_not_judged")
+			continue
+		}
+		var ferr error
+		if g := Guard(10*time.Second, func() { w.S.Quiesce(); ferr = Fsck(w.S.N.VerifFsState(), FsckOpts{Exact: true, Allocators: true}).Err() }); g.Bad() || ferr != nil {
+			msg := fmt.Sprintf("a rename whose source name was bound to another directory while it was under way left a disk that is not a well-formed file system: %v %v", g, ferr)
+			St.Violation("C04", msg, detail)
+			t.Fatalf("C04: %s\n%v", msg, detail)
+		}
+		w.S.Stop()
+		St.Eval(1)
+		St.NT(Hash("rebound", hook))
+		St.Class("renames_whose_source_name_was_rebound_meanwhile")
+	}
 }
